@@ -7,8 +7,9 @@ pub mod c06;
 pub mod c07;
 pub mod c09;
 pub mod c11;
+pub mod c17;
 pub mod hist;
 
 pub fn all() -> Vec<CheckDef> {
-    vec![c01::def(), c02::def(), c03::def(), c05::def(), c06::def(), c07::def(), c09::def(), c11::def()]
+    vec![c01::def(), c02::def(), c03::def(), c05::def(), c06::def(), c07::def(), c09::def(), c11::def(), c17::def()]
 }
